@@ -442,6 +442,9 @@ structure MCtx where
   /-- ctx.propertyList (nil = absent) -/
   plist : Option (List Str)
   cv : Conv
+  /-- what `obj.get("toJSON")` finds on the PROTOTYPE chain of an object value and what calling it
+      with the key returns (`none`: nothing callable is inherited) — a polluted runtime -/
+  pj : SV → Str → Option SV
 
 /-- what calling the method gives (`dflt`: the result of the inherited one); `none` = not callable -/
 def Meth.call (dflt : Prim) : Meth → Option Prim
@@ -496,17 +499,30 @@ def viaGet : SV → SV
   | .getter r _ => r
   | v => v
 
-/-- l.198-209 / ES5 Str step 2: an object whose `toJSON` is callable is replaced by the call's result -/
-def viaToJSON : SV → SV
-  | .tojson r => r
-  | v => v
+/-- `value.IsObject()`: the value's kind is valueObject (null and undefined are not) -/
+def isObjectKind : SV → Bool
+  | .func | .boxNum _ | .boxStr _ | .boxBool _ | .arr _ | .obj _ | .tojson _ | .back _
+  | .wrapNum .. | .wrapStr .. => true
+  | _ => false
+
+/-- the toJSON step of builtinJSONStringifyWalk: ONLY `if value.IsObject()` is `obj.get("toJSON")`
+    looked up; a function found (own: `tojson r`; inherited: `pj`) is called with the key and its
+    result replaces the value -/
+def viaToJSON (pj : SV → Str → Option SV) (key : Str) (v : SV) : SV :=
+  if isObjectKind v then
+    match v with
+    | .tojson r => r
+    | _ => match pj v key with
+      | some r => r
+      | none => v
+  else v
 
 mutual
 /-- builtinJSONStringifyWalk (l.195).  `depth` = number of enclosing containers on ctx.stack. -/
 def walk (C : MCtx) : Nat → Nat → Str → SV → WR GV
   | 0, _, _, _ => .oof
   | fuel + 1, depth, key, v0 =>
-    let v1 := viaToJSON (viaGet v0)    -- holder.get(key); toJSON
+    let v1 := viaToJSON C.pj key (viaGet v0)    -- holder.get(key); toJSON
     let v2 := match C.repl with        -- l.211
       | some f => f key v1
       | none => v1
@@ -834,15 +850,18 @@ inductive Out where
   | oof
 deriving DecidableEq
 
-def mctxOf (cv : Conv) : Replacer → MCtx
-  | .none => { repl := none, plist := none, cv := cv }
-  | .list items => { repl := none, plist := some (propertyList cv.numStr items), cv := cv }
-  | .fn f => { repl := some f, plist := none, cv := cv }
+def mctxOf (cv : Conv) (pj : SV → Str → Option SV) : Replacer → MCtx
+  | .none => { repl := none, plist := none, cv := cv, pj := pj }
+  | .list items => { repl := none, plist := some (propertyList cv.numStr items), cv := cv, pj := pj }
+  | .fn f => { repl := some f, plist := none, cv := cv, pj := pj }
+
+/-- a pristine runtime: no toJSON on any built-in prototype (Date aside, which is not modelled) -/
+def noProtoToJSON : SV → Str → Option SV := fun _ _ => none
 
 /-- builtinJSONStringify (l.109) -/
-def jsonStringify (L : C06.Lib) (cv : Conv) (fuel : Nat) (v : SV) (r : Replacer) (sp : Space) : Out :=
+def jsonStringify (L : C06.Lib) (cv : Conv) (pj : SV → Str → Option SV) (fuel : Nat) (v : SV) (r : Replacer) (sp : Space) : Out :=
   if (match sp with | .typeError => true | _ => false) then .typeError else
-  match walk (mctxOf cv r) fuel 0 [] v with
+  match walk (mctxOf cv pj r) fuel 0 [] v with
   | .val g => .text (marshal L (gapOf sp) 0 (sortMaps g))
   | .absent => .undef
   | .throw => .typeError
